@@ -129,6 +129,7 @@ ReqImportEv(ev) ==
   THEN { <<"C17.import_succeeds", ev.out = "Ok">> } \cup (IF ev.out = "Ok" THEN ReqImportRcgen(ev.args, ev.obs) ELSE {})
   ELSE IF ~SubjectInAlphabets(ev.args.cert)
   THEN { <<"C13.loaded_strings_admit_only_their_alphabet", ev.out # "Ok">> }
+       \cup (IF ev.out = "Ok" /\ ev.obs.reissue.k = "ok" THEN { <<"C04.der_strict", ev.obs.reissue.derStrict = <<>> >> } ELSE {})
   ELSE ReqImportForeign(ev.args, ev.out, ev.obs)
        \cup (IF ev.out = "Ok" /\ ev.obs.reissue.k = "ok" THEN { <<"C04.der_strict", ev.obs.reissue.derStrict = <<>> >> } ELSE {})
 
